@@ -39,6 +39,50 @@ def _ry(c, s, h):
     return [[c, 0, s], [0, h, 0], [-s, 0, c]]
 
 
+def _dirty(rnd, pts, dim):
+    """the same polyline as a noisy reading with a tolerance of 2 units: after some vertices readings that jitter within the
+    tolerance (v + j, v - j: each within tol of v, but 2|j| > tol apart from each other) and exact repeats"""
+    out = []
+    for p in pts:
+        out.append(list(p))
+        r = rnd.random()
+        j = rnd.choice(([1, 1, 0], [1, -1, 0], [0, 1, 1], [1, 0, 1]) if dim == 3 else ([1, 1, 0], [1, -1, 0]))
+        if r < 0.4:
+            out.append([p[k] + j[k] for k in range(3)])
+            out.append([p[k] - j[k] for k in range(3)])
+        elif r < 0.6:
+            out.append(list(p))
+    return out
+
+
+def _dev2(rnd, T, T2):
+    """signed profile deviations of measured points around the corners of a star-shaped polygon (many turns above 90 degrees)"""
+    import math
+    for _try in range(50):
+        k = rnd.randint(4, 8)
+        raw = {(rnd.randint(-8, 8), rnd.randint(-8, 8)) for _k in range(k)}
+        if len(raw) < 4:
+            continue
+        cx, cy = sum(p[0] for p in raw) / len(raw), sum(p[1] for p in raw) / len(raw)
+        ang = sorted((math.atan2(p[1] - cy, p[0] - cx), p) for p in raw if (p[0] - cx, p[1] - cy) != (0, 0))
+        gaps = [ang[(j + 1) % len(ang)][0] - ang[j][0] + (2 * math.pi if j + 1 == len(ang) else 0) for j in range(len(ang))]
+        if len(ang) < 4 or min(gaps) < 1e-6 or max(gaps) > math.pi - 0.05:
+            continue
+        poly = [list(p) + [0] for _a, p in ang]
+        if rnd.random() < 0.5:
+            poly.reverse()
+        break
+    else:
+        return None
+    fc = rnd.random() < 0.7
+    qs = []
+    for _k in range(14):
+        vx = rnd.choice(poly)
+        qs.append([2 * vx[0] + rnd.randint(-4, 4), 2 * vx[1] + rnd.randint(-4, 4), 0])
+    qs += [[rnd.randint(-20, 20), rnd.randint(-20, 20), 0] for _k in range(4)]
+    return {'m': 'rigid', 'op': 'dev2', 'dim': 2, 'T': T, 'T2': T2, 'pts': poly, 'fc': fc, 'qs': qs}
+
+
 def gen_c03_random(rnd, tier):
     n = 60 if tier == 'quick' else 1500
     out = []
@@ -62,14 +106,25 @@ def gen_c03_random(rnd, tier):
             T2 = {'M': _mm(_rz(*b), _rx(*c)), 'H': b[2] * c[2], 't': [3, -2, 5], 'planar': False}
             out.append({'m': 'rigid', 'op': 'curve', 'dim': 3, 'T': T, 'T2': T2, 'pts': [[0, 0, 0], [0, 3, 4], [2, 3, 4], [2, 0, 0]],
                         'fc': False, 'ls': [0, 1, 3, 7, 13], 'qs': qs3})
+            if rnd.random() < 0.5:
+                out.append(dict(out[-1], pts=_dirty(rnd, out[-1]['pts'], 3), tolU=2, tol16=32))
         elif kind == 'curve2':
             T2 = {'M': _rz(*b), 'H': b[2], 't': [3, -2, 0], 'planar': True}
             out.append({'m': 'rigid', 'op': 'curve', 'dim': 2, 'T': T, 'T2': T2, 'pts': [[0, 0, 0], [3, 4, 0], [3, 0, 0], [6, 0, 0]],
                         'fc': False, 'ls': [0, 1, 3, 7, 13], 'qs': qs2})
+            if rnd.random() < 0.5:
+                out.append(dict(out[-1], pts=_dirty(rnd, out[-1]['pts'], 2), tolU=2, tol16=32))
         elif kind == 'mesh':
             out.append({'m': 'rigid', 'op': 'mesh', 'dim': 3, 'T': T,
                         'vpos': [[0, 0, 0], [2, 0, 0], [0, 2, 0], [0, 0, 2]], 'faces': [[0, 2, 1], [0, 1, 3], [1, 2, 3], [0, 3, 2]],
                         'qs': [[rnd.randint(-3, 7) for _k in range(3)] for _j in range(5)]})
         else:
             out.append({'m': 'rigid', 'op': 'cloud', 'dim': 3, 'T': T, 'pts': qs3, 'ns': [[1, 0, 0], [0, 0, 1], [1, 2, 2], [-3, 0, 4]]})
+    for _ in range(40 if tier == 'quick' else 600):
+        a, b = rnd.choice(PYTH), rnd.choice(PYTH[:12])
+        T = {'M': _rz(*a), 'H': a[2], 't': [rnd.randint(-1000, 1000), rnd.randint(-1000, 1000), 0], 'planar': True}
+        T2 = {'M': _rz(*b), 'H': b[2], 't': [rnd.randint(-30, 30), rnd.randint(-30, 30), 0], 'planar': True}
+        rec = _dev2(rnd, T, T2)
+        if rec:
+            out.append(rec)
     return out
